@@ -35,6 +35,7 @@ TT_BOTH = ("typetable", "type_table", {})
 TT_AUX = ("typetable", "storage_block_heap_tables", {})
 CONSTEXPR = ("constexpr", "constexpr_table", {})
 SIB = ("siblings", "instrumenter_siblings", {})
+REIMPL = ("siblings", "reindexable_impls", {})
 MODEF = ("modes", "mode_field", {})
 BLOCKT = ("special", "block_tables", {})
 CLEARS = ("special", "resolve_clears", {})
@@ -62,6 +63,7 @@ MODEHELP = ("modes", "mode_helpers", {})
 FINISH = ("modes", "finish_resets_priority_mode", {})
 SKIPPASS = ("iters", "skip_passthrough", {})
 FLF = ("special", "func_level_first", {})
+MODRESET = ("special", "modifier_reset", {})
 KMIX = ("mutators", "kind_mix", {})
 SECORD = ("emit", "section_order", {})
 NEST = ("component", "nest_track", {})
@@ -106,43 +108,43 @@ PROPS = {
              "R-HASHORDER + zero-expected nondeterminism sources on the encode call graph; R-FIELDS-COVER(Types) hash/eq coherence.",
              "nothing of note for safe single-threaded Rust beyond the enumerated sources.",
              "resolved-callee enumeration + loop-body effect classification"),
-    "C05": P([HASH, ENCW, SECORD, ("emit", "idempotent_encode", {}), CLEARS, CLEARCOH],
+    "C05": P([MODRESET, REORG, HASH, ENCW, SECORD, ("emit", "idempotent_encode", {}), CLEARS, CLEARCOH],
              "necessary: in-place remapping requires renormalising the ID sources; lowered special lists are cleared",
              "R-IDEMPOTENT-ENCODE, R-RESOLVE-CLEARS, R-CLEAR-COHERENT.",
              "byte equality of two encodings.",
              "effect analysis of the encode call graph"),
-    "C06": P([EXPKIND, WCOPY, DELP, LCG, FULLIT, KMIX, MAPUNC, ("reindex", "refers_exh", {"kind": "func"}), ("reindex", "fix_op_dispatch", {}), EM(("func",)), MAPARGS, MISS, RECALC, REORG,
+    "C06": P([REIMPL, EXPKIND, WCOPY, DELP, LCG, FULLIT, KMIX, MAPUNC, ("reindex", "refers_exh", {"kind": "func"}), ("reindex", "fix_op_dispatch", {}), EM(("func",)), MAPARGS, MISS, RECALC, REORG,
               ("mutators", "coupled_import_order", {}), IDSPACE, FRESH, IMPORD],
              "necessary conditions for function references to stay bound: operator coverage, every function-index sink mapped, maps not swapped, loud failure on dangling references, re-indexing armed by every order-changing mutation, reorganise's position bookkeeping, import order coupling, no cross-space id casts",
              "R-REFERS-EXH(func), R-FIXOP-DISPATCH, R-EMIT-MAPPED(func), R-MAP-ARGS, R-MISS-LOUD, R-RECALC-SET, R-REORG-INV, R-COUPLED-IMPORT-ORDER, R-IDSPACE, R-FRESH-ID, R-IMPORT-ORDINAL.",
              "that reorganise computes the right permutation for every history (only its per-branch invariant preservation is checked); validity of the output.",
              "ADT-driven exhaustiveness + sink provenance + path rules"),
-    "C07": P([WCOPY, IDSPACE, KMIX, MAPUNC, ("reindex", "refers_exh", {"kind": "global"}), EM(("global",)), MAPARGS, MISS, RECALC, REORG, ("mutators", "who_may_call", {}), FRESH],
+    "C07": P([REIMPL, FULLIT, EMITALL, WCOPY, IDSPACE, KMIX, MAPUNC, ("reindex", "refers_exh", {"kind": "global"}), EM(("global",)), MAPARGS, MISS, RECALC, REORG, ("mutators", "who_may_call", {}), FRESH],
              "necessary conditions for global references to stay bound, incl. who may add to the globals collection",
              "R-REFERS-EXH(global), R-EMIT-MAPPED(global), R-MAP-ARGS, R-MISS-LOUD, R-RECALC-SET, R-REORG-INV, R-WHOMAYCALL, R-FRESH-ID.",
              "as C06.",
              "ADT-driven exhaustiveness + sink provenance + who-may-call"),
-    "C08": P([IDSPACE, KMIX, MAPUNC, ("reindex", "refers_exh", {"kind": "memory"}), ("reindex", "fix_op_dispatch", {}), EM(("memory",)), MAPARGS, MISS, RECALC, REORG, FRESH],
+    "C08": P([REIMPL, FULLIT, EMITALL, IDSPACE, KMIX, MAPUNC, ("reindex", "refers_exh", {"kind": "memory"}), ("reindex", "fix_op_dispatch", {}), EM(("memory",)), MAPARGS, MISS, RECALC, REORG, FRESH],
              "exhaustiveness of the memory re-index predicate/updater against the Operator ADT of the build; memory sinks mapped",
              "R-REFERS-EXH(memory), R-FIXOP-DISPATCH, R-EMIT-MAPPED(memory), R-MAP-ARGS, R-MISS-LOUD, R-RECALC-SET, R-REORG-INV, R-FRESH-ID.",
              "as C06.",
              "ADT-driven match exhaustiveness"),
-    "C09": P([EXPKIND, WCOPY, MAPUNC, EM(("func", "global", "memory")), EMITALL, MAPARGS, LCG, FULLIT, IDSPACE, KMIX, ("misc", "delete_pairing", {}), ("emit", "del_guard", {}), MISS, RECALC, REORG] + REIDX,
+    "C09": P([REIMPL, EXPKIND, WCOPY, MAPUNC, EM(("func", "global", "memory")), EMITALL, MAPARGS, LCG, FULLIT, IDSPACE, KMIX, ("misc", "delete_pairing", {}), ("emit", "del_guard", {}), MISS, RECALC, REORG] + REIDX,
              "necessary: deletes address the right element and its import, emitters skip deleted, dangling references fail loudly, re-indexing armed, reorganise bookkeeping",
              "R-DELETE-PAIRING, R-DEL-GUARD, R-MISS-LOUD, R-RECALC-SET, R-REORG-INV.",
              "that every other entity keeps its identity over all histories.",
              "field-provenance pairing + guarded-sink analysis"),
-    "C10": P([WCOPY, EM(("func",)), MAPUNC, FULLIT, ("reindex", "refers_exh", {"kind": "func"}), WALK, IDSPACE, ("misc", "convert_flows", {}), RECALC, IMPORD, REORG, DELP, LCG],
+    "C10": P([("misc", "builder_flow", {}), FRESH, WCOPY, EM(("func",)), MAPUNC, FULLIT, ("reindex", "refers_exh", {"kind": "func"}), WALK, IDSPACE, ("misc", "convert_flows", {}), RECALC, IMPORD, REORG, DELP, LCG],
              "necessary: the slot flipped to Local is addressed in the function index space, under the signature guard, after the import was deleted",
              "R-IDSPACE, R-CONVERT-FLOW, R-RECALC-SET, R-IMPORT-ORDINAL, R-REORG-INV, R-DELETE-PAIRING (delete_func, which the conversion reuses, touches only the function and its import), R-LOCAL-COUNT-GUARD.",
              "that every former use executes the new body.",
              "newtype cross-space lint + path order"),
-    "C11": P([WCOPY, LCG, EM(("func",)), MAPUNC, DELP, ("reindex", "refers_exh", {"kind": "func"}), ("mutators", "coupled_import_order", {}), ("mutators", "counter_inv", {}), ("misc", "convert_flows", {}), RECALC, REORG],
+    "C11": P([FRESH, WCOPY, LCG, EM(("func",)), MAPUNC, DELP, ("reindex", "refers_exh", {"kind": "func"}), ("mutators", "coupled_import_order", {}), ("mutators", "counter_inv", {}), ("misc", "convert_flows", {}), RECALC, REORG],
              "necessary: import order coupling, counter invariant, provenance of the new ImportedFunction",
              "R-COUPLED-IMPORT-ORDER, R-COUNTER-INV, R-CONVERT-FLOW, R-RECALC-SET, R-REORG-INV.",
              "redirect semantics over histories.",
              "abstract counter deltas per path + provenance"),
-    "C12": P([("opcode", "opcode_table", {}), ("emit", "name_index", {}), WALK, ("misc", "builder_flow", {}), ("mutators", "counter_inv", {}), ("mutators", "swap_flows", {}), TT_WE, ("mutators", "locals_owner", {}), LCG] + REIDX,
+    "C12": P([REORG, TT_AUX, ("opcode", "opcode_table", {}), ("emit", "name_index", {}), WALK, ("misc", "builder_flow", {}), ("mutators", "counter_inv", {}), ("mutators", "swap_flows", {}), TT_WE, ("mutators", "locals_owner", {}), LCG] + REIDX,
              "necessary: builder hand-over order and arguments, sibling agreement of the finish variants, counter invariant, no same-typed parameter swaps, type table",
              "R-BUILDER-FLOW, R-COUNTER-INV, R-SWAP, R-TYPE-TABLE, R-LOCALS (declared locals), R-LOCAL-COUNT-GUARD.",
              "decoded equality.",
@@ -157,12 +159,12 @@ PROPS = {
              "R-LOCALS (owner, shape on every path, caller arguments), R-TYPE-TABLE, R-IDSPACE (the function id an entry point hands to the owner is not re-derived from a cursor position).",
              "nothing beyond the trusted base for the index formula; the encoded declaration relies on C01's tables.",
              "who-may-write + path enumeration"),
-    "C15": P([CLEARCOH, LOCADDR, FINISH, MODEHELP, MODESET, FULLIT, MODEF, ("modes", "has_instr_cover", {}), ("modes", "emit_order", {}), SIB, INJAT],
+    "C15": P([MODRESET, CLEARCOH, LOCADDR, FINISH, MODEHELP, MODESET, FULLIT, MODEF, ("modes", "has_instr_cover", {}), ("modes", "emit_order", {}), SIB, INJAT],
              "structural whole of the plain-mode lowering: mode→list dispatch, has_instr coverage, emission order on every path, sibling agreement of the injection APIs",
              "R-MODE-FIELD, R-HAS-INSTR, R-EMIT-ORDER, R-SIBLING(instrumenter), R-INJECT-AT.",
              "textual equality on concrete programs (a consequence).",
              "path enumeration over structured HIR + sibling effect summaries"),
-    "C17": P([SIB, SECORD, EMITORD, ENCW, FINISH, MODEHELP, FLF, ("misc", "type_dedup", {}), LCG, WALK, SPFLAG, CLEARCOH, MODEF, BLOCKT, DETAILS, CLEARS, ("special", "entry_preserve", {})],
+    "C17": P([MODRESET, SIB, SECORD, EMITORD, ENCW, FINISH, MODEHELP, FLF, ("misc", "type_dedup", {}), LCG, WALK, SPFLAG, CLEARCOH, MODEF, BLOCKT, DETAILS, CLEARS, ("special", "entry_preserve", {})],
              "necessary: exit probes cover every return/throw/trap operator, wrapper opened/closed once, entry at idx 0, entry body preserved",
              "R-BLOCK-TABLES(4), R-RESOLVER-DETAILS, R-RESOLVE-CLEARS, R-ENTRY-PRESERVE.",
              "firing counts at run time.",
@@ -187,7 +189,7 @@ PROPS = {
              "R-BLOCK-TABLES(1,2), R-RESOLVER-DETAILS, R-RESOLVE-CLEARS, R-CLEAR-COHERENT.",
              "textual result.",
              "table agreement + guarded-write analysis"),
-    "C22": P([EMITORD, FLF, FINISH, MODEHELP, MODESET, ("special", "block_tables", {"openers_clause": False}), LCG, WALK, SAVESIB, SCOPED, ("special", "special_flag", {}), CLEARS, ("special", "entry_preserve", {}), MODEF, SIB, ("misc", "dead_after_sink", {}), ("modes", "has_instr_cover", {}), CLEARCOH, INJAT],
+    "C22": P([MODRESET, EMITORD, FLF, FINISH, MODEHELP, MODESET, ("special", "block_tables", {"openers_clause": False}), LCG, WALK, SAVESIB, SCOPED, ("special", "special_flag", {}), CLEARS, ("special", "entry_preserve", {}), MODEF, SIB, ("misc", "dead_after_sink", {}), ("modes", "has_instr_cover", {}), CLEARCOH, INJAT],
              "necessary set: the is-special result is never dropped, lowered lists are cleared with the matching mode, the saved entry body is never overwritten, mode→list dispatch, no dead After sink",
              "R-SPECIAL-FLAG, R-RESOLVE-CLEARS, R-ENTRY-PRESERVE, R-MODE-FIELD, R-SIBLING(instrumenter), R-DEAD-AFTER-SINK, R-HAS-INSTR, R-CLEAR-COHERENT, R-INJECT-AT.",
              "that every accepted special injection appears in the bytes for every body.",
